@@ -482,6 +482,6 @@ def gen_inputs(rng: random.Random, m: GModel, npoints: int):
             else:
                 v = rng.choice([0.0, 1.0, -1.0, 0.5, 2.0, 3.0, -2.5, 1e-3, 7.0])
             p[n] = float(v)
-        p["t"] = float(rng.choice([0.0, 1.0, rng.uniform(0, 10), rng.uniform(-2, 2)]))
+        p["t"] = float(rng.choice([0.0, 1.0, rng.uniform(0, 10), rng.uniform(-2, 2), rng.uniform(-10, 0), -1.0]))
         pts.append(p)
     return pts
